@@ -712,14 +712,14 @@ def oracle(world, calls, threads_exc, deadlock):
             if t not in born or born[t] > c["resp"]:
                 bad.append(("query_phantom", f"a query returned token {t} which no operation had started to store", got))
                 continue
-            # removed for good before the query started?
-            i = next((ii for cc, ii in adds if cc["op"][1] == t), None)
-            if i is None:
-                i = next((cc["op"][1] for cc in run if cc["op"][0] == "upd" and cc["op"][2] == t), None)
-            for d in run:
-                if d["op"][0] == "del" and d["op"][1] == i and d["atoms"] and d["atoms"][0][3][1] == 1 and d["resp"] < c["inv"]:
-                    bad.append(("query_stale", f"a query returned object {i} although its deletion had completed before "
-                                "the query started", got))
+            # removed for good before the query started?  (several objects may carry the same token: every one of them)
+            ids_t = [ii for cc, ii in adds if cc["op"][1] == t and ii >= 0]
+            ids_t += [cc["op"][1] for cc in run if cc["op"][0] == "upd" and cc["op"][2] == t]
+            gone = [i for i in ids_t if any(d["op"][0] == "del" and d["op"][1] == i and d["atoms"] and d["atoms"][0][3][1] == 1
+                                            and d["resp"] < c["inv"] for d in run)]
+            if ids_t and len(gone) == len(set(ids_t)):
+                bad.append(("query_stale", f"a query returned token {t} although the deletion of every object that carried it "
+                            f"(ids {sorted(set(ids_t))}) had completed before the query started", got))
         # an object stored before the query started and not named by any operation must be returned
         for cc, ii in adds:
             if ii >= 0 and cc["resp"] < c["inv"] and not named.get(ii) and cc["op"][1] not in gc_tokens \
@@ -906,6 +906,66 @@ def run_scenario(ctx, lin, name, variant, programs, bound, max_runs, random_runs
 
 
 # ------------------------------------------------------------------------------------------------ sequential correspondence
+def run_sequential(ctx, variant, names=None, concrete=None):
+    """one single-threaded history on a real LDM: text oracle, then responses and final state against the specification.
+    names: symbolic operations (resolved while running: the twins' identifiers are only known then); concrete: the
+    operation tuples of a replay"""
+    if concrete is not None:
+        pre = [[tuple(o) for o in concrete]]
+        names = [None] * len(concrete)
+    else:
+        pre = [[OPS[n](k) for k, n in enumerate(names) if n in OPS]]
+    w = World(variant, SETUP_BASE, expired_tokens(pre))
+    atoms = list(w.setup_atoms)
+    observed = []
+    ops = []
+    twins = []           # identifiers of the content-identical objects added in this history (same token, same time)
+    err = None
+    try:
+        for k, name in enumerate(names):
+            if concrete is not None:
+                o = tuple(concrete[k])
+            elif name == "addtwin":
+                o = ("add", TWIN_TOKEN, 1000)
+            elif name == "deltwin":
+                o = ("del", twins[-1] if twins else 7)
+            elif name == "updtwin":
+                o = ("upd", twins[0] if twins else 7, 350 + k)
+            else:
+                o = OPS[name](k)
+            ops.append(o)
+            c = w.call(0, o)
+            if name == "addtwin" and c["atoms"] and c["atoms"][0][3][1] >= 0:
+                twins.append(c["atoms"][0][3][1])
+            atoms += c["atoms"]
+            observed += [a[3] for a in c["atoms"]]
+    except Exception as e:  # noqa: BLE001
+        err = f"{type(e).__name__}: {e}"
+    inp = {"variant": variant, "ops": [list(o) for o in ops]}
+    ctx.count(1, "sequential_" + variant)
+    ctx.nontriv(("seq", variant, tuple(ops)))
+    if err:
+        ctx.property_failure("operation_raised:sequential", inp, "a single-threaded call raised", None, err)
+        return
+    for cls, detail, obs in oracle(w, w.calls, [], None):
+        ctx.property_failure(f"{cls}:sequential", inp, detail, None, obs)
+    flat = ctx.model.batch([(1, encode_atoms(atoms))])[0]
+    res, mfinal = decode_model(flat, len(atoms))
+    pst, pres = spec_init(), []
+    for at in atoms:
+        pst, r = spec_step(pst, at)
+        pres.append((r[0], r[1]))
+    if [list(x) for x in pres] != [list(x) for x in res] or spec_final(pst) != mfinal:
+        ctx.mismatch("python_spec_vs_model", inp, [[list(x) for x in res], mfinal], [[list(x) for x in pres], spec_final(pst)])
+    res = res[len(w.setup_atoms):]
+    mres = [list(r) for r, o in zip(res, observed) if o is not None]
+    ires = [list(o) for o in observed if o is not None]
+    if mres != ires:
+        ctx.mismatch("sequential_responses", inp, mres, ires)
+    elif mfinal != w.final_state():
+        ctx.mismatch("sequential_final_state", inp, mfinal, w.final_state())
+
+
 def sequential_cases(ctx, lin, n_cases):
     """single-threaded random histories: responses and final state of the real LDM = the specification (correspondence)"""
     kinds = list(OPS) + ["addtwin", "addtwin", "deltwin", "updtwin"]
@@ -918,55 +978,7 @@ def sequential_cases(ctx, lin, n_cases):
         else:
             variant = ctx.rng.choice(["Reactive", "Thread"])
             names = [ctx.rng.choice(kinds) for _ in range(ctx.rng.randint(1, 10))]
-        # object 2 may be updated: its tokens are known before the world is built
-        pre = [[OPS[n](k) for k, n in enumerate(names) if n in OPS]]
-        w = World(variant, SETUP_BASE, expired_tokens(pre))
-        atoms = list(w.setup_atoms)
-        observed = []
-        ops = []
-        twins = []           # identifiers of the content-identical objects added in this history (same token, same time)
-        err = None
-        try:
-            for k, name in enumerate(names):
-                if name == "addtwin":
-                    o = ("add", TWIN_TOKEN, 1000)
-                elif name == "deltwin":
-                    o = ("del", twins[-1] if twins else 7)
-                elif name == "updtwin":
-                    o = ("upd", twins[0] if twins else 7, 350 + k)
-                else:
-                    o = OPS[name](k)
-                ops.append((name, o))
-                c = w.call(0, o)
-                if name == "addtwin" and c["atoms"] and c["atoms"][0][3][1] >= 0:
-                    twins.append(c["atoms"][0][3][1])
-                atoms += c["atoms"]
-                observed += [a[3] for a in c["atoms"]]
-        except Exception as e:  # noqa: BLE001
-            err = f"{type(e).__name__}: {e}"
-        inp = {"variant": variant, "ops": [list(o) for _, o in ops]}
-        ctx.count(1, "sequential_" + variant)
-        ctx.nontriv(("seq", variant, tuple(o for _, o in ops)))
-        if err:
-            ctx.property_failure("operation_raised:sequential", inp, "a single-threaded call raised", None, err)
-            continue
-        for cls, detail, obs in oracle(w, w.calls, [], None):
-            ctx.property_failure(f"{cls}:sequential", inp, detail, None, obs)
-        flat = ctx.model.batch([(1, encode_atoms(atoms))])[0]
-        res, mfinal = decode_model(flat, len(atoms))
-        pst, pres = spec_init(), []
-        for at in atoms:
-            pst, r = spec_step(pst, at)
-            pres.append((r[0], r[1]))
-        if [list(x) for x in pres] != [list(x) for x in res] or spec_final(pst) != mfinal:
-            ctx.mismatch("python_spec_vs_model", inp, [[list(x) for x in res], mfinal], [[list(x) for x in pres], spec_final(pst)])
-        res = res[len(w.setup_atoms):]
-        mres = [list(r) for r, o in zip(res, observed) if o is not None]
-        ires = [list(o) for o in observed if o is not None]
-        if mres != ires:
-            ctx.mismatch("sequential_responses", inp, mres, ires)
-        elif mfinal != w.final_state():
-            ctx.mismatch("sequential_final_state", inp, mfinal, w.final_state())
+        run_sequential(ctx, variant, names=names)
 
 
 # ------------------------------------------------------------------------------------------------ entry points
@@ -1068,7 +1080,14 @@ def replay(ctx, data):
     f = data.get("failure") or (data.get("broken") or [{}])[-1].get("first") or {}
     inp = f.get("input") or {}
     print(json.dumps(f, default=str)[:3000])
-    if "programs" not in inp:
+    ctx.model = common.Model(MODEL_NAME)
+    if "programs" not in inp and "ops" in inp:
+        install()
+        try:
+            run_sequential(ctx, inp.get("variant", "Reactive"), concrete=inp["ops"])
+        finally:
+            restore()
+    elif "programs" not in inp:
         run(ctx)
     else:
         lin = LinChecker(ctx)
